@@ -1,64 +1,20 @@
-import FeVerif.Model.PyDecoder
+/-
+Registry of driver commands.  Each property contributes `FeVerif/Driver/<X>.lean` with a
+`dispatch<X> : String → List String → Option String` (command word, space-separated arguments).
+-/
+import FeVerif.Driver.Frame
 
 namespace FeVerif
 
-def showPairs (l : List (Nat × Nat)) : String :=
-  ",".intercalate (l.map fun (a, b) => s!"{a}:{b}")
-
-/-- `a,b,-,c` : comma separated hex chunks, `-` is the empty chunk, `=` the empty list. -/
-def parseChunks (s : String) : Option (List Bytes) :=
-  if s == "=" then some [] else (s.splitOn ",").mapM fun x => if x == "-" then some [] else ofHex x
-
-/-- `pydec <max> <hex>,<hex>,…` : per call `msgs|buflen|hdrCached|processed`, joined by `;`. -/
-def cmdPyDec (args : List String) : String :=
-  match args with
-  | [m, chunks] =>
-    match m.toNat?, parseChunks chunks with
-    | some m, some cs =>
-      let rec go (s : PyDec) (cs : List Bytes) (acc : List String) : List String :=
-        match cs with
-        | [] => acc.reverse
-        | d :: ds =>
-          let r := pyOnData m s d
-          go r.2 ds (s!"{showPairs r.1}|{r.2.buf.length}|{if r.2.hdr.isSome then 1 else 0}|{r.2.processed}" :: acc)
-      ";".intercalate (go PyDec.init cs [])
-    | _, _ => "bad-args"
-  | _ => "bad-args"
-
-/-- `scan <max> <hex>` : the streaming scan: `msgs|restlen|off`. -/
-def cmdScan (args : List String) : String :=
-  match args with
-  | [m, hex] =>
-    match m.toNat?, ofHex hex with
-    | some m, some bs =>
-      let r := (cfgPy m).run bs 0
-      s!"{showPairs r.msgs}|{r.rest.length}|{r.off}"
-    | _, _ => "bad-args"
-  | _ => "bad-args"
-
-/-- `scanfile <max> <hex>` : the file scan. -/
-def cmdScanFile (args : List String) : String :=
-  match args with
-  | [m, hex] =>
-    match m.toNat?, ofHex hex with
-    | some m, some bs => showPairs ((cfgPy m).runFile bs 0)
-    | _, _ => "bad-args"
-  | _ => "bad-args"
-
-/-- `crc32 <hex>` -/
-def cmdCrc (args : List String) : String :=
-  match args with
-  | [hex] => match ofHex hex with
-    | some bs => toString (crc32 0#32 bs).toNat
-    | none => "bad-args"
-  | _ => "bad-args"
+def dispatchers : List (String → List String → Option String) :=
+  [dispatchFrame]
 
 def dispatch (line : String) : String :=
   match line.splitOn " " with
-  | "pydec" :: args => cmdPyDec args
-  | "scan" :: args => cmdScan args
-  | "scanfile" :: args => cmdScanFile args
-  | "crc32" :: args => cmdCrc args
-  | _ => "bad-op"
+  | [] => "bad-op"
+  | cmd :: args =>
+    match dispatchers.findSome? (fun d => d cmd args) with
+    | some r => r
+    | none => "bad-op"
 
 end FeVerif
